@@ -455,6 +455,10 @@ func coSign(text string, s1, s2, v1, v2 []string) (string, string) {
 	if err != nil {
 		return "second Sign failed: " + err.Error(), "cosign"
 	}
+	// Sign must not change the note it is given
+	if after := append(sigList(n1.Sigs), sigList(n1.UnverifiedSigs)...); !eq(after, existing) || n1.Text != text {
+		return fmt.Sprintf("Sign changed the note it was given: signatures %v -> %v, text %q -> %q", existing, after, text, n1.Text), "cosign"
+	}
 	gotText, gotSigs, ok := refParse(string(msg2))
 	if !ok || gotText != text {
 		return fmt.Sprintf("co-signed message is malformed or carries another text: %q", msg2), "cosign"
